@@ -687,6 +687,75 @@ theorem toUnitlessList_atoms (l : List (PyVal α)) (u : PyVal α) :
     cases toUnitlessScalar a u <;> simp [Except.map]
     cases toUnitlessFlat r u <;> simp [Except.map]
 
+/-- a 0-d array is converted exactly like the scalar it holds (a numeric 0-d array holds a plain number) -/
+theorem toUnitless_zerod (isObject : Bool) (a u : PyVal α) (ha : a.WF) (hu : u.WF)
+    (hnum : isObject = false → ∃ x, a = .num x) :
+    toUnitless (.zerod isObject a) u = (toUnitlessScalar a u).map Res.num := by
+  rw [toUnitless]
+  cases isObject with
+  | true =>
+    simp only [if_true]
+    cases toUnitlessScalar a u <;> rfl
+  | false =>
+    obtain ⟨x, rfl⟩ := hnum rfl
+    simp only [Bool.false_eq_true, if_false]
+    by_cases hun : isUnitlessScalar u = true
+    · have hd : u.dims = Dims.zero := (isUnitlessScalar_iff u).mp hun
+      simp only [hun, if_true]
+      have hone : u.si = 1 → toUnitlessScalar (.num x) u = .ok x := by
+        intro h1
+        rw [(toUnitlessScalar_ok_iff ha hu _).mpr ⟨by simp [hd], rfl⟩, h1]
+        simp
+      cases u with
+      | num y =>
+        simp only [rescale, PyVal.eqOne, Quantity.dimensionless, decide_true, if_true, Nat.cast_one, decide_eq_true_eq]
+        split_ifs with hy
+        · rw [hone (by simpa using hy)]; rfl
+        · cases toUnitlessScalar (PyVal.num x) (PyVal.num y) <;> rfl
+      | qty q =>
+        have hq : q.unit.dims = (Unit.one : Unit α).dims := hd
+        simp only [rescale, quantitiesRescale, Quantity.dimensionless, Nat.cast_one, ne_eq, not_true_eq_false, if_false, hq,
+          if_true, Except.map, PyVal.eqOne, decide_eq_true_eq]
+        split_ifs with hy
+        · rw [hone (by simpa [Unit.one] using hy)]; rfl
+        · cases toUnitlessScalar (PyVal.num x) (PyVal.qty q) <;> rfl
+    · simp only [hun]
+      cases toUnitlessScalar (PyVal.num x) u <;> rfl
+
+/-- an object-dtype array is converted exactly like the list of its elements: the `return value` shortcut never applies -/
+theorem toUnitless_objarray (u : PyVal α) (l : List (Val α)) : toUnitless (.objarray l) u = toUnitless (.list l) u := by
+  rw [toUnitless, toUnitless]
+
+theorem toUnitless_objarray_ok_iff (u : PyVal α) (l : List (Val α)) (r : Res α) :
+    toUnitless (.objarray l) u = .ok r ↔ ∃ rs, r = .list rs ∧ List.Forall₂ (fun v x => toUnitless v u = .ok x) l rs := by
+  rw [toUnitless_objarray, toUnitless_list]
+  cases h : toUnitlessList l u with
+  | error e =>
+    simp only [Except.map, reduceCtorEq, false_iff]
+    rintro ⟨rs, _, hf⟩
+    rw [← toUnitlessList_ok_iff, h] at hf; simp at hf
+  | ok rs =>
+    simp only [Except.map, Except.ok.injEq]
+    constructor
+    · rintro rfl; exact ⟨rs, rfl, (toUnitlessList_ok_iff u l rs).mp h⟩
+    · rintro ⟨rs', rfl, hf⟩
+      rw [← toUnitlessList_ok_iff, h] at hf
+      simp only [Except.ok.injEq] at hf; rw [hf]
+
+/-- object array of scalars: value and refusal, whatever the target (also when the target's SI value is 1) -/
+theorem toUnitless_objarray_atoms (l : List (PyVal α)) (u : PyVal α) (hl : ∀ a ∈ l, a.WF) (hu : u.WF) :
+    ((∀ a ∈ l, a.dims = u.dims) →
+      toUnitless (.objarray (l.map Val.atom)) u = .ok (.list (l.map fun a => Res.num (a.si / u.si)))) ∧
+    ((∃ a ∈ l, a.dims ≠ u.dims) → toUnitless (.objarray (l.map Val.atom)) u = .error .valueError) := by
+  obtain ⟨f1, f2⟩ := toUnitlessFlat_spec l u hl hu
+  constructor
+  · intro h
+    rw [toUnitless_objarray, toUnitless_list, toUnitlessList_atoms, f1 h]
+    simp [Except.map, List.map_map, Function.comp]
+  · intro h
+    rw [toUnitless_objarray, toUnitless_list, toUnitlessList_atoms, f2 h]
+    rfl
+
 /-- `uniform` of a list/tuple itself: every element is re-expressed in the unit of the FIRST element (same physical value,
     same dimension); one element of another dimension → ValueError; empty → IndexError -/
 theorem uniformList_spec (h : PyVal α) (t : List (PyVal α)) (hw : ∀ a ∈ h :: t, a.WF) :
